@@ -63,7 +63,7 @@ def _validate(ctx, events):
         if ev["src"] == "replay":
             detail["case"] = {"v": ev["value"], "canon": [], "layouts": []}
         ctx.violation({"dir": "impl->spec", "src": ev["src"], "profile": ev.get("profile", "release"), "failed": b["why"],
-                       "files": len(ev["value"]), "ser": ev["ser"][:200], "lens": [len(f[1]) for f in ev["value"]][:12]}, detail)
+                       "files": len(ev["value"]) or len(ev.get("lens", [])), "body_lengths": ev.get("lens"), "ser": ev["ser"][:200], "lens": [len(f[1]) for f in ev["value"]][:12]}, detail)
 
 
 def run(ctx):
@@ -74,8 +74,9 @@ def run(ctx):
                 "included), parse(serialize(v)) compared with v; impl->spec: serialize(v) of every generated value and of "
                 "seeded random maps up to 300 files (lengths around multiples of 32, Shift-JIS names) and of maps with 255/256/257, "
                 "4095/4096/4097, 20 000, 65 534 and 65 535 mostly empty files (the upper edge of the quantifier; quick validates "
-                "every entry's structure and a sample of names/bodies, thorough everything), and every empty/non-empty pattern over 1..5 "
-                "files, under the release and the checked build, validated by TLC with "
+                "every entry's structure and a sample of names/bodies, thorough everything), every empty/non-empty pattern over 1..5 files, "
+                "and rule-built packs whose bodies cross 2^24 / 2^25 bytes (TLC decides sizes, alignment, containment, "
+                "non-overlap and sampled body bytes from the lengths), under the release and the checked build, validated by TLC with "
                 "the statement's conditions (well-formed, exact, 32-aligned bodies, reference parse = value). "
                 "Non-trivial = image holding at least one file.")
     binary = ctx.build("release", "mvh_cont")
@@ -105,7 +106,7 @@ def run(ctx):
     for profile, b, seed_shift in (("release", binary, 0), ("checked", checked, 7919)):
         rpath = ctx.path("pack_record_%s.ndjson" % profile)
         # upper edge of the quantifier (65 534 / 65 535 files): sampled validation in quick, full in thorough
-        flags = ["bounds"] + ([] if profile == "checked" else ["edge" if ctx.quick() else "edge-full"])
+        flags = ["bounds", "bytes"] + ([] if profile == "checked" else ["edge" if ctx.quick() else "edge-full"])
         flags += [] if ctx.quick() or profile == "checked" else ["big"]
         ctx.harness(b, ["pack-record", rpath, str(runs // 2), str(max_files)] + flags, env={"VERIF_SEED": str(ctx.seed + seed_shift)})
         for e in vlib.read_ndjson(rpath):
@@ -130,6 +131,8 @@ def run(ctx):
                         "names are taken from the lossless Shift-JIS domain; the codec (encoding_rs) is trusted; names include 63/64/65 and 127/128/129-byte ones with a double-byte character across offsets 64 and 128",
                         "placement and padding of names, and trailing padding of the file, are not demanded of the builder "
                         "(byte differences from CanonPack are counted in informational_mismatches only)",
+                        "of the packs with > 2^24 bytes of bodies only the entry table, the names and the first / last 32 bytes of every "
+                        "body (in the image and as parsed) reach TLC; full equality parse = value is computed on the Rust values",
                         "a wrong magic / oversized fields are C05, not exercised here"]
     cc.finish_unbuildable(ctx, unb)
 
